@@ -121,6 +121,7 @@ class Normaliser:
         self._inval: List[str] = []          # keys dropped from `decided` because something they mention changed
         self.vnum: Dict[str, tuple] = {}     # variables that stay variables are numbered in the order they are first bound
         fn = _imports_as_bindings(fn)
+        fn = _unroll_literal_loops(fn)
         fn = inline_procedures(fn, self.helpers, self.methods) if depth == 0 else fn
         fn = webs.split(fn)
         fn = prepass(fn)
@@ -1478,7 +1479,8 @@ class Normaliser:
                     r = self._root(v2.func) if isinstance(v2, ast.Call) else None
                     # a call made for its effect: the effect is on the object it is a method of or on what it is given
                     roots = ({r} if r is not None else set())
-                    if isinstance(v2, ast.Call) and not (isinstance(v2.func, ast.Name) and v2.func.id in NO_ARG_EFFECT):
+                    if isinstance(v2, ast.Call) and not (isinstance(v2.func, ast.Name) and v2.func.id in NO_ARG_EFFECT) \
+                            and not (isinstance(v2.func, ast.Attribute) and v2.func.attr in MUTATORS):
                         for a_ in list(v2.args) + [k_.value for k_ in v2.keywords]:
                             roots |= _may_alias(a_)
                     if roots:
@@ -2277,6 +2279,75 @@ def _free_names(helper) -> set:
             rec(ch, bound)
     rec(helper, frozenset(loc))
     return out
+
+
+def _unroll_literal_loop(node):
+    """`for t in (e1, e2, e3): body` without break / continue / else is `t = e1; body; t = e2; body; t = e3; body` (a short display only)"""
+    import copy
+    it = node.iter
+    if isinstance(it, ast.Constant) and isinstance(it.value, str) and 0 < len(it.value) <= 4:
+        elts = [ast.Constant(value=ch) for ch in it.value]
+    elif isinstance(it, (ast.Tuple, ast.List)) and 0 < len(it.elts) <= 6 and not any(isinstance(e, ast.Starred) for e in it.elts):
+        elts = list(it.elts)
+    else:
+        return None
+    if node.orelse or not all(_ast_pure(e) for e in elts):
+        return None
+
+    def jumps(stmts):
+        for st in stmts:
+            if isinstance(st, (ast.Break, ast.Continue)):
+                return True
+            if isinstance(st, (ast.For, ast.While, ast.FunctionDef, ast.AsyncFunctionDef, ast.ClassDef)):
+                if isinstance(st, (ast.For, ast.While)) and jumps(st.orelse):
+                    return True
+                continue
+            for fld in ("body", "orelse", "finalbody"):
+                if jumps(getattr(st, fld, None) or []):
+                    return True
+            if isinstance(st, ast.Try) and any(jumps(h.body) for h in st.handlers):
+                return True
+        return False
+    if jumps(node.body) or sum(1 for st in node.body for _ in ast.walk(st)) * len(elts) > 1500:
+        return None
+    # a loop that only collects (`L.append(f(x))`, `d[k] = v`, possibly under conditions, after temporaries) is the comprehension it spells out: left to the pre-pass
+    last = node.body[-1]
+    while isinstance(last, ast.If) and not last.orelse and last.body:
+        last = last.body[-1]
+    collects = (isinstance(last, ast.Expr) and isinstance(last.value, ast.Call) and isinstance(last.value.func, ast.Attribute) and last.value.func.attr in ("append", "add", "extend", "update")) \
+        or (isinstance(last, ast.Assign) and len(last.targets) == 1 and isinstance(last.targets[0], ast.Subscript))
+    if collects and all(isinstance(st, ast.Assign) and len(st.targets) == 1 and isinstance(st.targets[0], ast.Name) for st in node.body[:-1]):
+        return None
+    if any(isinstance(x, (ast.FunctionDef, ast.AsyncFunctionDef, ast.ClassDef)) for st in node.body for x in ast.walk(st)):
+        return None
+    out = []
+    for e in elts:
+        out.append(ast.Assign(targets=[copy.deepcopy(node.target)], value=copy.deepcopy(e)))
+        out.extend(copy.deepcopy(st) for st in node.body)
+    for st in out:
+        ast.copy_location(st, node)
+        ast.fix_missing_locations(st)
+    return out
+
+
+def _unroll_literal_loops(fn):
+    if not any(isinstance(x, ast.For) and isinstance(x.iter, (ast.Tuple, ast.List, ast.Constant)) for x in ast.walk(fn)):
+        return fn
+    import copy
+    fn = copy.deepcopy(fn)
+
+    class T(ast.NodeTransformer):
+        def visit_For(self, node):
+            self.generic_visit(node)
+            r = _unroll_literal_loop(node)
+            return node if r is None else r
+
+        def visit_FunctionDef(self, node):
+            return self.generic_visit(node) if node is fn else node
+
+        def visit_Lambda(self, node):
+            return node
+    return T().visit(fn)
 
 
 _PREPASSED: Dict[int, tuple] = {}
@@ -3322,6 +3393,20 @@ def _mutated_names(fn, root_of) -> set:
         parent[find(a)] = find(b)
     holds, elems, derived = defaultdict(set), defaultdict(set), defaultdict(set)
     events = []   # (root, depth)
+    # names only ever bound to values that cannot be changed (number / string / bool / None literals, comparisons, f-strings): handing them to a call changes nothing
+    n_stores, n_literal = defaultdict(int), defaultdict(int)
+    for n in ast.walk(fn):
+        if isinstance(n, ast.Name) and isinstance(n.ctx, (ast.Store, ast.Del)):
+            n_stores[n.id] += 1
+        elif isinstance(n, ast.arg):
+            n_stores[n.arg] += 1
+        if isinstance(n, ast.Assign) and len(n.targets) == 1 and isinstance(n.targets[0], ast.Name):
+            v_ = n.value
+            if isinstance(v_, ast.UnaryOp) and isinstance(v_.op, (ast.USub, ast.Not)):
+                v_ = v_.operand
+            if isinstance(v_, (ast.Constant, ast.Compare, ast.JoinedStr)):
+                n_literal[n.targets[0].id] += 1
+    immutable_only = {x for x, c_ in n_stores.items() if c_ > 0 and n_literal.get(x) == c_}
 
     def depth_root(e):
         d = -1
@@ -3411,6 +3496,17 @@ def _mutated_names(fn, root_of) -> set:
             if r is not None:
                 events.append((r, d + 1))
                 holds[r] |= set().union(*[_may_alias(a) for a in n.args]) if n.args else set()
+        if isinstance(n, ast.Expr) and isinstance(n.value, ast.Call) and not (isinstance(n.value.func, ast.Name) and n.value.func.id in NO_ARG_EFFECT) \
+                and not (isinstance(n.value.func, ast.Attribute) and n.value.func.attr in MUTATORS):   # (append & co. change their receiver only: handled above)
+            # a call made for its effect may change what it is given (and the object it is a method of)
+            for a_ in list(n.value.args) + [k_.value for k_ in n.value.keywords]:
+                for nm_ in _may_alias(a_):
+                    if nm_ not in immutable_only:
+                        events.append((nm_, 0))
+            if isinstance(n.value.func, ast.Attribute):
+                r, d = depth_root(n.value.func.value)
+                if r is not None:
+                    events.append((r, max(d, 0)))
     # propagate
     def cls(x):
         r = find(x)
